@@ -154,4 +154,4 @@ def verify_tables(run):
 
 
 if __name__ == "__main__":
-    common.guarded_main("C08", "proof", main)
+    common.guarded_main("C08", "proof", main, generic_replay=True)
